@@ -8,6 +8,7 @@ import (
 	"sort"
 	"strconv"
 	"strings"
+	"sync"
 
 	"golang.org/x/tools/go/ssa"
 )
@@ -208,6 +209,12 @@ func (t *tb) ubits(v ssa.Value) int {
 		if isBuiltin(x.Common(), "len") {
 			return 63
 		}
+		// an in-package helper whose result is a closed byte composition
+		if _, a, ok := t.inline(x, 0, false); ok {
+			if n := bitsOfTerm(a); n < 64 {
+				return n
+			}
+		}
 		if f := x.Common().StaticCallee(); f != nil && f.Pkg != nil && f.Pkg.Pkg.Path() == "encoding/binary" {
 			if bits, _, ok := intBits(x.Type()); ok {
 				return bits
@@ -216,6 +223,46 @@ func (t *tb) ubits(v ssa.Value) int {
 	}
 	if bits, uns, ok := intBits(v.Type()); ok && uns {
 		return bits
+	}
+	return 64
+}
+
+// byteAtoms: element atoms known to denote a single unsigned byte (recorded where they are created).
+var byteAtoms sync.Map
+
+// bitsOfTerm: an upper bound on the significant bits of a term that is a constant or a single byte composition.
+func bitsOfTerm(a aff) int {
+	if !a.ok {
+		return 64
+	}
+	if k, isK := a.isConst(); isK {
+		if k < 0 {
+			return 64
+		}
+		n := 0
+		for k > 0 {
+			n++
+			k >>= 1
+		}
+		return n
+	}
+	if a.c != 0 || len(a.syms) != 1 {
+		return 64
+	}
+	for atom, coef := range a.syms {
+		if coef != 1 {
+			return 64
+		}
+		var k int
+		if n, _ := fmt.Sscanf(atom, "LE(%d,", &k); n == 1 && k >= 1 && k < 8 {
+			return 8 * k
+		}
+		if n, _ := fmt.Sscanf(atom, "BE(%d,", &k); n == 1 && k >= 1 && k < 8 {
+			return 8 * k
+		}
+		if _, isByte := byteAtoms.Load(atom); isByte {
+			return 8
+		}
 	}
 	return 64
 }
@@ -348,7 +395,11 @@ func (t *tb) term1(v ssa.Value) aff {
 		if x.Op == token.MUL {
 			if ia, ok := x.X.(*ssa.IndexAddr); ok {
 				base, idx := t.elemRef(ia)
-				return t.atomOf("%s[%s]", base, idx)
+				a := t.atomOf("%s[%s]", base, idx)
+				if bits, uns, isInt := intBits(x.Type()); isInt && uns && bits == 8 {
+					byteAtoms.Store(a.String(), true)
+				}
+				return a
 			}
 			if fv := forwardLoad(x); fv != nil {
 				return t.term(fv)
@@ -568,21 +619,26 @@ func (t *tb) byteCompose(root *ssa.BinOp) (aff, bool) {
 	}
 	var leaves []leaf
 	ok := true
-	var walk func(v ssa.Value, shift int64)
-	walk = func(v ssa.Value, shift int64) {
+	// minW: the narrowest integer type any arithmetic on the way down was done in; a byte placed at bit `shift` survives
+	// only if shift+8 <= minW (a shift or sum in a narrower type drops it)
+	var walk func(v ssa.Value, shift int64, minW int)
+	walk = func(v ssa.Value, shift int64, minW int) {
 		if !ok {
 			return
 		}
 		switch x := v.(type) {
 		case *ssa.BinOp:
+			if w, _, isInt := intBits(x.Type()); isInt && w < minW {
+				minW = w
+			}
 			switch x.Op {
 			case token.ADD, token.OR:
-				walk(x.X, shift)
-				walk(x.Y, shift)
+				walk(x.X, shift, minW)
+				walk(x.Y, shift, minW)
 				return
 			case token.SHL:
 				if k, isK := t.constVal(x.Y); isK {
-					walk(x.X, shift+k)
+					walk(x.X, shift+k, minW)
 					return
 				}
 			}
@@ -591,7 +647,7 @@ func (t *tb) byteCompose(root *ssa.BinOp) (aff, bool) {
 				if fb, _, fok := intBits(x.X.Type()); fok {
 					tb2, _, _ := intBits(x.Type())
 					if tb2 >= fb { // widening of a byte-derived value
-						walk(x.X, shift)
+						walk(x.X, shift, minW)
 						return
 					}
 				}
@@ -599,7 +655,7 @@ func (t *tb) byteCompose(root *ssa.BinOp) (aff, bool) {
 		case *ssa.UnOp:
 			if x.Op == token.MUL {
 				if ia, isIA := x.X.(*ssa.IndexAddr); isIA {
-					if bits, uns, isInt := intBits(x.Type()); isInt && uns && bits == 8 {
+					if bits, uns, isInt := intBits(x.Type()); isInt && uns && bits == 8 && shift+8 <= int64(minW) {
 						base, idx := t.elemRef(ia)
 						leaves = append(leaves, leaf{shift, base, idx})
 						return
@@ -610,7 +666,7 @@ func (t *tb) byteCompose(root *ssa.BinOp) (aff, bool) {
 			// an already-composed little-endian group (encoding/binary call or inlined helper) contributes its bytes
 			var k int64
 			var base, idx string
-			if n, _ := fmt.Sscanf(strings.NewReplacer("(", " ", ",", " ", "[", " ", "]", " ", ")", " ").Replace(t.term(x).String()), "LE %d %s %s", &k, &base, &idx); n == 3 && k >= 1 && k <= 8 {
+			if n, _ := fmt.Sscanf(strings.NewReplacer("(", " ", ",", " ", "[", " ", "]", " ", ")", " ").Replace(t.term(x).String()), "LE %d %s %s", &k, &base, &idx); n == 3 && k >= 1 && k <= 8 && shift+8*k <= int64(minW) {
 				if ia, err := parseSimpleAff(idx); err == nil {
 					for j := int64(0); j < k; j++ {
 						leaves = append(leaves, leaf{shift + 8*j, base, ia.add(affConst(j), 1)})
@@ -621,7 +677,7 @@ func (t *tb) byteCompose(root *ssa.BinOp) (aff, bool) {
 		}
 		ok = false
 	}
-	walk(root, 0)
+	walk(root, 0, 64)
 	if !ok || len(leaves) < 2 {
 		return aff{}, false
 	}
@@ -720,6 +776,10 @@ func (t *tb) loopIdiom(acc *ssa.Phi) (aff, bool) {
 	if !ok || n < 1 || n > 16 {
 		return aff{}, false
 	}
+	// the accumulator must be wide enough to hold all N bytes (a narrower one silently drops the high ones)
+	if w, _, isInt := intBits(acc.Type()); !isInt || 8*n > int64(w) {
+		return aff{}, false
+	}
 	// body expression, with the induction variable as a named atom
 	sub := newTB(t.res)
 	sub.depth, sub.tables = t.depth, t.tables
@@ -775,11 +835,16 @@ func (t *tb) loopIdiom(acc *ssa.Phi) (aff, bool) {
 		// little-endian: acc OP (byte << 8*i)
 		if unconv(a) == ssa.Value(acc) {
 			if sh, ok := unconv(b).(*ssa.BinOp); ok && sh.Op == token.SHL {
+				if w, _, isInt := intBits(sh.Type()); !isInt || 8*n > int64(w) {
+					return aff{}, false // shifted in a type too narrow for the last byte
+				}
 				amt := sub.term(sh.Y)
 				if c, isC := amt.add(affAtom("@i").scale(8), -1).isConst(); isC && c == 0 {
 					if base, off, ok := byteAt(sh.X); ok {
 						if n == 1 {
-							return t.atomOf("%s[%s]", base, off), true
+							a := t.atomOf("%s[%s]", base, off)
+							byteAtoms.Store(a.String(), true)
+							return a, true
 						}
 						return t.atomOf("LE(%d,%s[%s])", n, base, off), true
 					}
@@ -802,7 +867,9 @@ func (t *tb) loopIdiom(acc *ssa.Phi) (aff, bool) {
 			if isShift {
 				if base, off, ok := byteAt(b); ok {
 					if n == 1 {
-						return t.atomOf("%s[%s]", base, off), true
+						a := t.atomOf("%s[%s]", base, off)
+						byteAtoms.Store(a.String(), true)
+						return a, true
 					}
 					return t.atomOf("BE(%d,%s[%s])", n, base, off), true
 				}
